@@ -30,7 +30,7 @@ func init() {
 			"at every offset and payload prefetched beyond 4 KiB): oracle: sink bytes == payload exactly; RemoteAddr/LocalAddr, {l4.conn.*} placeholders and the remote_ip matcher see the declared addresses " +
 			"(LOCAL/UNKNOWN: the real peer's); peers outside the allow list get the stream untouched; a header the handler does not accept must end the connection without any handler. " +
 			"sender case = proxy handler with proxy_protocol v1|v2 to a harness upstream, plain or behind a receiving proxy_protocol handler: an independent parser must find exactly one header of the configured " +
-			"version with the client's effective addresses, immediately followed by the client's stream. non-trivial = header accepted or sent; distinct = hash(all case parameters)",
+			"version with the client's effective addresses, immediately followed by the client's stream. non-trivial = header accepted or sent; distinct = hash(all case parameters). a quarter of the sender cases run while another proxy handler for the same upstream addresses (with the other version, or no header) is alive",
 		Assumptions: []string{
 			"the PROXY library in use rejects v2 headers with TLVs and padding; such cases are counted as 'rejected' and only checked for failing closed",
 			"unix-family addresses are exercised on the sender side only",
@@ -49,20 +49,21 @@ func init() {
 
 // Case is one receiver or sender execution.
 type Case struct {
-	Index    int              `json:"index"`
-	Kind     string           `json:"kind"` // recv, send, chain
-	Header   *ref.ProxyHeader `json:"header,omitempty"`
-	HdrHex   string           `json:"hdr_hex,omitempty"`
-	Peer     string           `json:"peer"`  // real client address
-	Allow    []string         `json:"allow"` // allow list of the handler (nil = everyone)
-	Allowed  bool             `json:"allowed"`
-	Payload  int              `json:"payload"`
-	Seg      string           `json:"seg"`
-	Split    int              `json:"split"`            // header split offset (-1 none)
-	WireNeed int              `json:"wire_need"`        // extra scripted matcher on the wire (forces prefetch)
-	Silent   bool             `json:"silent,omitempty"` // sender case: the client stays silent until the upstream has the header
-	Flat     bool             `json:"flat,omitempty"`   // address route and a data-hungry route in the same list as the proxy_protocol route
-	Version  string           `json:"version,omitempty"`
+	Index     int              `json:"index"`
+	Kind      string           `json:"kind"` // recv, send, chain
+	Header    *ref.ProxyHeader `json:"header,omitempty"`
+	HdrHex    string           `json:"hdr_hex,omitempty"`
+	Peer      string           `json:"peer"`  // real client address
+	Allow     []string         `json:"allow"` // allow list of the handler (nil = everyone)
+	Allowed   bool             `json:"allowed"`
+	Payload   int              `json:"payload"`
+	Seg       string           `json:"seg"`
+	Split     int              `json:"split"`               // header split offset (-1 none)
+	WireNeed  int              `json:"wire_need"`           // extra scripted matcher on the wire (forces prefetch)
+	Companion string           `json:"companion,omitempty"` // sender case: proxy_protocol setting of another live handler for the same upstream ("<nil>" = none)
+	Silent    bool             `json:"silent,omitempty"`    // sender case: the client stays silent until the upstream has the header
+	Flat      bool             `json:"flat,omitempty"`      // address route and a data-hungry route in the same list as the proxy_protocol route
+	Version   string           `json:"version,omitempty"`
 }
 
 var ip4s = []string{"1.2.3.4", "0.0.0.0", "255.255.255.255", "10.0.0.1", "192.168.255.254", "127.0.0.1", "203.0.113.77"}
@@ -422,6 +423,27 @@ func sendCase(c *fw.Ctx, r *rand.Rand, i int, up *drive.Upstream) {
 		routes = append(routes, map[string]any{"match": []any{map[string]any{"proxy_protocol": map[string]any{}}}, "handle": []any{map[string]any{"handler": "proxy_protocol"}, proxyH}})
 	} else {
 		routes = append(routes, map[string]any{"handle": []any{proxyH}})
+	}
+	if fw.Rand(c.Seed, "c12companion", i).Intn(4) == 0 {
+		// another proxy handler for the same upstream addresses exists already (another server of the configuration, or the
+		// configuration as it was before a reload), with a different proxy_protocol setting: each handler sends what it
+		// was configured to send
+		other := map[string]any{"handler": "proxy", "upstreams": []any{map[string]any{"dial": dials}}}
+		switch cs.Version {
+		case "v1":
+			other["proxy_protocol"] = "v2"
+		case "v2":
+			if i%2 == 0 {
+				other["proxy_protocol"] = "v1"
+			}
+		}
+		cs.Companion = fmt.Sprint(other["proxy_protocol"])
+		app0, err := drive.StartApp(drive.J([]any{map[string]any{"handle": []any{other}}}), "20s")
+		if err != nil {
+			c.Violation("C12 config rejected", err.Error(), cs)
+			return
+		}
+		defer app0.Stop()
 	}
 	app, err := drive.StartApp(drive.J(routes), "20s")
 	if err != nil {
